@@ -33,6 +33,7 @@ from __future__ import annotations
 
 import decimal
 import math
+import zlib
 from decimal import Decimal
 from fractions import Fraction
 
@@ -55,7 +56,7 @@ RULE = (
 )
 ASSUMPTIONS = [
     "the exact sizes of the 13 units used are solved from the intercepted shipped declarations (vf.sizes)",
-    "tolerance: rel 1e-9 (absolute floor 1e-9 x larger operand for sums/differences); when + or - has to "
+    "tolerance: rel 1e-12 (absolute floor 1e-12 x larger operand for sums/differences; DESIGN 2.9 first said 1e-9); when + or - has to "
     "convert between different base units over shipped definitions: 1e-5 x degree (DESIGN 2.9), i.e. 2e-5 on "
     "the measurand and 4e-5 on the uncertainty (whose square is converted)",
     "the measurand clause takes the library's own plain-quantity operation as reference (as the statement "
@@ -74,7 +75,7 @@ FAMILIES = (
 PREFIXES = ("", "kilo", "milli", "centi", "micro", "mega")
 FAMILY_OF = {u: i for i, fam in enumerate(FAMILIES) for u in fam}
 
-REL = Fraction(1, 10**9)
+REL = Fraction(1, 10**12)
 CONV = Fraction(1, 10**5)
 FLOOR = Fraction(1, 10**18)
 MAX_ABS = 10**8
@@ -314,6 +315,9 @@ def _retype(fr, like):
     return fr.numerator / fr.denominator
 
 
+VIA_APPROX = [0]
+
+
 class _Operand:
     __slots__ = ("v", "s", "unit", "size", "plain", "name")
 
@@ -324,6 +328,19 @@ class _Operand:
         q = M.Quantity(self.v, self.unit)
         if self.plain and not force_measurement:
             return q
+        if not self.plain and self.s and zlib.crc32(repr((self.v, self.s)).encode()) % 3 == 0:
+            # the same measurement obtained from the public approximately() helper (relative
+            # tolerance), whenever that reproduces the uncertainty exactly
+            try:
+                w = self.s / abs(self.v) if self.v else self.s
+                obj = M.approximately(q, w)
+                got = obj.uncertainty
+                if isinstance(obj, M.Measurement) and got.unit is self.unit and type(got.magnitude) is type(M.Measurement(q, self.s).uncertainty.magnitude) \
+                        and Fraction(got.magnitude) == Fraction(self.s) and obj.measurand.magnitude == self.v:
+                    VIA_APPROX[0] += 1
+                    return obj
+            except Exception:  # noqa -- approximately() itself is not what this check is about
+                pass
         return M.Measurement(q, 0 if self.plain else self.s)
 
     @property
@@ -564,6 +581,7 @@ def run_case(case) -> core.Outcome:
 
     alias = bool(isinstance(case, dict) and case.get("alias")) and B is not None and case.get("a") == case.get("b")
     ALIAS[0] = alias
+    via0 = VIA_APPROX[0]
     try:
         r1 = _one_run(out, fails, op, n, A, B, "as written" + (", same object on both sides" if alias else ""))
         r2 = _one_run(out, fails, op, n, A2, B2, "re-expressed" + (", same object on both sides" if alias else ""))
@@ -571,6 +589,8 @@ def run_case(case) -> core.Outcome:
         ALIAS[0] = False
     if alias:
         out.classes.append("alias:same-object")
+    if VIA_APPROX[0] > via0:
+        out.classes.append("operand:via-approximately")
 
     # the result does not depend on the units in which the operands are expressed.  Both
     # runs were judged against one unit-free oracle, so this can only add something when
